@@ -319,18 +319,114 @@ fn bias_grid(number: u16) -> Grid<'static> {
     }
 }
 
+/// The same three quantisers observed inside a realistic list: the probed entry sits at a random place among other
+/// entries (other satellites, other recognised signals with other biases and, for 1059/1065, valid signals these
+/// messages have no code for, which their encoders skip).  Each entry's bias must be quantised on its own.
+fn bias_in_list_grid(number: u16) -> Grid<'static> {
+    use crate::oracle::sig::{pos_to_sig, SSR_GLO, SSR_GPS};
+    let w = if number == 1230 { 16usize } else { 14 };
+    let kmin = -(1i128 << (w - 1));
+    let kmax = (1i128 << (w - 1)) - 1;
+    let res: f64 = if number == 1230 { 0.02 } else { 0.01 };
+    let inner = bias_grid(number);
+    let table: &'static [(u8, u8, char)] = if number == 1059 { &SSR_GPS } else { &SSR_GLO };
+    let c = if number == 1059 { 0usize } else { 1 };
+    // valid signals of the constellation that the SSR table does not list
+    let foreign: Vec<(u8, char)> = (1..=32u8).filter_map(|p| pos_to_sig(c, p)).filter(|s| !table.iter().any(|t| t.1 == s.0 && t.2 == s.1)).collect();
+    Grid {
+        name: format!("msg{}_bias_in_list", number),
+        is32: true,
+        kmin,
+        kmax,
+        domain: vec![100, 1000, -100, -1000, 50, 500, 5000, -5000],
+        g: inner.g,
+        e: Box::new(move |x| {
+            let mut r = Rng::new(crate::rng::mix((x as f32).to_bits() as u64, number as u64));
+            let nsat: u64 = if number == 1059 { 64 } else { 32 };
+            let probe = (r.below(nsat) as u8, table[r.usize_below(table.len())]);
+            // (satellite, band, attribute, bias)
+            let mut others: Vec<(u8, u8, char, f32)> = Vec::new();
+            let n_other = if number == 1230 { r.below(4) } else { r.below(14) } as usize;
+            for _ in 0..n_other {
+                let sat = if r.chance(1, 3) { probe.0 } else { r.below(nsat) as u8 };
+                let v = (r.range(-8192, 8191) as f32) * 0.01 + (r.range(-49, 49) as f32) * 0.0001;
+                if number != 1230 && !foreign.is_empty() && r.chance(1, 3) {
+                    let f = foreign[r.usize_below(foreign.len())];
+                    others.push((sat, f.0, f.1, v));
+                } else {
+                    let t = table[r.usize_below(table.len())];
+                    let sat = if number == 1230 { probe.0 } else { sat };
+                    if (sat, t.1, t.2) == (probe.0, (probe.1).1, (probe.1).2) || others.iter().any(|o| (o.0, o.1, o.2) == (sat, t.1, t.2)) {
+                        continue;
+                    }
+                    others.push((sat, t.1, t.2, v));
+                }
+            }
+            let at = r.usize_below(others.len() + 1);
+            others.insert(at, (probe.0, (probe.1).1, (probe.1).2, x as f32));
+            let m = match number {
+                1059 => {
+                    let mut t = Msg1059T::default();
+                    for o in &others {
+                        t.biases.push(Msg1059CodeBias { satellite_id: o.0, signal_id: GpsSigId::new(o.1, o.2), bias_m: o.3 });
+                    }
+                    Message::Msg1059(t)
+                }
+                1065 => {
+                    let mut t = Msg1065T::default();
+                    for o in &others {
+                        t.biases.push(Msg1065CodeBias { satellite_id: o.0, signal_id: GloSigId::new(o.1, o.2), bias_m: o.3 });
+                    }
+                    Message::Msg1065(t)
+                }
+                _ => {
+                    let mut t = Msg1230T::default();
+                    for o in &others {
+                        t.glo_code_phase_biases.push(Msg1230CodePhaseBias { signal_id: GloSigId::new(o.1, o.2), bias_m: o.3 });
+                    }
+                    Message::Msg1230(t)
+                }
+            };
+            let mut b = MessageBuilder::new();
+            let fr = match b.build_message(&m) {
+                Ok(fr) => fr.to_vec(),
+                Err(e) => return Err(format!("{:?} (list of {} entries)", e, others.len())),
+            };
+            let mf = MessageFrame::new(&fr).map_err(|e| format!("own frame rejected: {:?}", e))?;
+            let found: Option<f32> = match mf.get_message() {
+                Message::Msg1059(m) => m.biases.iter().find(|b| b.satellite_id == probe.0 && b.signal_id == GpsSigId::new((probe.1).1, (probe.1).2)).map(|b| b.bias_m),
+                Message::Msg1065(m) => m.biases.iter().find(|b| b.satellite_id == probe.0 && b.signal_id == GloSigId::new((probe.1).1, (probe.1).2)).map(|b| b.bias_m),
+                Message::Msg1230(m) => m.glo_code_phase_biases.iter().find(|b| b.signal_id == GloSigId::new((probe.1).1, (probe.1).2)).map(|b| b.bias_m),
+                _ => None,
+            };
+            match found {
+                Some(v) => Ok((v as f64 / res).round() as i128),
+                None => Err(format!("the entry is missing from the decoded list of {} entries", others.len())),
+            }
+        }),
+        res_hint: res,
+        bias_hint: 0.0,
+    }
+}
+
 pub fn run(p: &Params) -> Outcome {
     let seed = p.seed;
     let n_k = p.size(40_000, 2_000_000) as usize;
     let scaled: Vec<usize> = FIELDS.iter().enumerate().filter(|(_, f)| f.is_float() && f.res.is_some()).map(|(i, _)| i).collect();
     let n_scaled = scaled.len();
     let parts = if p.thorough { 16 } else { 4 };
-    let njobs = (n_scaled + 3) * parts;
+    let njobs = (n_scaled + 6) * parts;
     let mut total = par::run_queue(p.workers, njobs, move |ji, ctx| {
         let fi = ji / parts;
         let part = ji % parts;
         let mut rng = Rng::derive(seed, "C11", ji as u64);
-        let gr = if fi < n_scaled { field_grid(&FIELDS[scaled[fi]]) } else { bias_grid([1059u16, 1065, 1230][fi - n_scaled]) };
+        let gr = if fi < n_scaled {
+            field_grid(&FIELDS[scaled[fi]])
+        } else if fi < n_scaled + 3 {
+            bias_grid([1059u16, 1065, 1230][fi - n_scaled])
+        } else {
+            bias_in_list_grid([1059u16, 1065, 1230][fi - n_scaled - 3])
+        };
         let ks = sample_ks(&mut rng, gr.kmin, gr.kmax, n_k / parts, &gr.domain);
         let mut excess_max = f64::NEG_INFINITY;
         for &k in &ks {
@@ -350,7 +446,7 @@ pub fn run(p: &Params) -> Outcome {
     }
     Outcome {
         ctx: total,
-        rule: format!("every float-typed field with a resolution ({} from the scan) + the three bias quantisers through messages; for sampled k over the whole range (dense at the ends, around zero and powers of two; all k when the range is small): inputs between g(k) and g(k+1) incl. half step +-ulps; oracle: encoded value in {{k,k+1}}, |x-g| <= step/2 + slack (4 eps q step + 4 eps (|x|+|bias|+step)), monotone; inputs per interval are distinct by construction", n_scaled),
+        rule: format!("every float-typed field with a resolution ({} from the scan) + the three bias quantisers through one-entry messages and as one entry at a random place in a list of up to 14 others (other satellites and signals, for 1059/1065 also valid signals those messages have no code for); for sampled k over the whole range (dense at the ends, around zero and powers of two; all k when the range is small): inputs between g(k) and g(k+1) incl. half step +-ulps; oracle: encoded value in {{k,k+1}}, |x-g| <= step/2 + slack (4 eps q step + 4 eps (|x|+|bias|+step)), monotone; inputs per interval are distinct by construction", n_scaled),
         exhaustive: false,
         extra: json!({"scaled_fields": n_scaled}),
     }
@@ -362,6 +458,8 @@ pub fn replay(_p: &Params, v: &Value) -> Outcome {
     let k: i128 = v["k"].as_str().and_then(|s| s.parse().ok()).unwrap_or(0);
     let gr = if let Some(f) = crate::fields::by_id(name) {
         Some(field_grid(f))
+    } else if let Some(n) = name.strip_prefix("msg").and_then(|s| s.strip_suffix("_bias_in_list")).and_then(|s| s.parse::<u16>().ok()) {
+        Some(bias_in_list_grid(n))
     } else if let Some(n) = name.strip_prefix("msg").and_then(|s| s.strip_suffix("_bias")).and_then(|s| s.parse::<u16>().ok()) {
         Some(bias_grid(n))
     } else {
